@@ -56,7 +56,8 @@ def check_case(ctx, case):
         for h, t in pts:
             got = float(fm(np.array([h, t])))
             vx, vt = float(Vx(h)), float(Vt(t))
-            Cx, Ct = params.get('Cx'), params.get('Ct')
+            # the documented combination uses the sills of the fitted marginal variograms
+            Cx, Ct = float(V.XMarginal.describe()['sill']), float(V.TMarginal.describe()['sill'])
             if case['model'] == 'sum':
                 want = vx + vt
             elif case['model'] == 'product':
